@@ -71,8 +71,8 @@ Definition model_gate_coverage : list (string * string * string * coverage) := [
   ("_verify_positionals", "assert", "Only one positional argument may have last(true) set. Found ", Modelled "verify_positionals: count_if a_last < 2");
   ("_verify_positionals", "panic", "Having a required positional argument with .last(true) set *", Modelled "verify_positionals: required last positional with subcommands");
   ("assert_arg", "assert", "Argument '{}' cannot conflict with itself", Modelled "assert_arg: negb (mem_id (a_id a) (a_blacklist a))");
-  ("assert_arg", "assert", "Argument `{}`'s action {:?} is incompatible with `num_args({", Modelled "assert_arg: vmax nv <=? vmax (action_max_num_args act) -- STRICTER than the source for SetTrue/SetFalse (TablesActions.model_action_gate)");
-  ("assert_arg", "assert_eq", "Argument `{}`'s selected action {:?} contradicts `value_pars", Modelled "assert_arg: action_value_type vs vp_type -- STRICTER than the source for SetTrue/SetFalse (TablesActions.model_action_gate)");
+  ("assert_arg", "assert", "Argument `{}`'s action {:?} is incompatible with `num_args({", Modelled "assert_arg: vmax nv <=? vmax (action_max_num_args act) (the table itself: TablesActions.model_action_gate)");
+  ("assert_arg", "assert_eq", "Argument `{}`'s selected action {:?} contradicts `value_pars", Modelled "assert_arg: action_value_type vs vp_type (the table itself: TablesActions.model_action_gate)");
   ("assert_arg", "assert", "Argument '{}' has value hint but takes no value", NoData "value hints");
   ("assert_arg", "assert", "Argument '{}' uses hint CommandWithArguments and must accept", NoData "value hints");
   ("assert_arg", "assert", "Argument '{}' is a positional argument and can't have short ", Modelled "assert_arg: a_index implies a_is_positional");
